@@ -11,6 +11,8 @@ From SV Require Import Model.WireArp Proofs.WireArpProofs.
 From SV Require Import Model.WireUdp Proofs.WireUdpProofs.
 From SV Require Import Model.WireIpv4 Proofs.WireIpv4Proofs.
 From SV Require Import Model.WireIpv6 Proofs.WireIpv6Proofs.
+From SV Require Import Model.WireIcmpv4 Proofs.WireIcmpv4Proofs.
+From SV Require Import Model.WireIcmpv6 Proofs.WireIcmpv6Proofs.
 
 (* ---------------- Ethernet II ---------------- *)
 
@@ -86,3 +88,35 @@ Print Assumptions C07_ipv6_accessors_safe.
 Theorem C07_ipv6_parse_total : forall bs, bytes_ok bs = true -> ipv6_parse bs <> Panic.
 Proof. exact ipv6_parse_total. Qed.
 Print Assumptions C07_ipv6_parse_total.
+
+(* ---------------- ICMPv4 ---------------- *)
+
+Theorem C07_icmpv4_accessors_safe : forall (sum_ok : list Z -> bool) (sum_fill : list Z -> Z) bs,
+  icmpv4_check_len bs = Ok tt ->
+  icmpv4_msg_type bs <> Panic /\ icmpv4_msg_code bs <> Panic /\ icmpv4_checksum bs <> Panic /\
+  icmpv4_echo_ident bs <> Panic /\ icmpv4_echo_seq_no bs <> Panic /\ icmpv4_header_len bs <> Panic /\
+  icmpv4_data bs <> Panic.
+Proof. exact icmpv4_accessors_safe. Qed.
+Print Assumptions C07_icmpv4_accessors_safe.
+
+Theorem C07_icmpv4_parse_total : forall sum_ok (sum_fill : list Z -> Z) rx bs,
+  bytes_ok bs = true -> icmpv4_parse sum_ok rx bs <> Panic.
+Proof. exact icmpv4_parse_total. Qed.
+Print Assumptions C07_icmpv4_parse_total.
+
+(* ---------------- ICMPv6 (check_len / header_len / payload for every message type; the typed
+   accessors and Repr::parse for the RFC 4443 messages; NDISC / MLD parse is delegated) -------- *)
+
+Theorem C07_icmpv6_accessors_safe : forall (sum_ok : list Z -> bool) (sum_fill : list Z -> Z) bs,
+  icmpv6_check_len bs = Ok tt ->
+  icmpv6_msg_type bs <> Panic /\ icmpv6_msg_code bs <> Panic /\ icmpv6_checksum bs <> Panic /\
+  icmpv6_echo_ident bs <> Panic /\ icmpv6_echo_seq_no bs <> Panic /\
+  icmpv6_pkt_too_big_mtu bs <> Panic /\ icmpv6_param_problem_ptr bs <> Panic /\
+  icmpv6_header_len bs <> Panic /\ icmpv6_payload bs <> Panic.
+Proof. exact icmpv6_accessors_safe. Qed.
+Print Assumptions C07_icmpv6_accessors_safe.
+
+Theorem C07_icmpv6_parse_total : forall sum_ok (sum_fill : list Z -> Z) rx bs,
+  bytes_ok bs = true -> icmpv6_parse sum_ok rx bs <> Panic.
+Proof. exact icmpv6_parse_total. Qed.
+Print Assumptions C07_icmpv6_parse_total.
